@@ -698,6 +698,13 @@ func (b *bitstream) readNsecs(length uint64) (int, bool, uint8, error) {
 		return 0, false, 0, err
 	}
 
+	// A fraction whose exponent cannot be shifted by nine places is certainly not within [0, 1);
+	// ShiftL panics on it.
+	if int64(d.scale)-9 < math.MinInt32 {
+		msg := fmt.Sprintf("invalid timestamp fraction: %v", d)
+		return 0, false, 0, &SyntaxError{msg, b.pos}
+	}
+
 	nsec, err := d.ShiftL(9).trunc()
 	if err != nil || nsec < 0 || nsec > 999999999 {
 		msg := fmt.Sprintf("invalid timestamp fraction: %v", d)
